@@ -13,7 +13,7 @@ MAXGAP = 5
 
 def obligations(tier):
     # H12 and D1 with a span of 5 buckets reach gaps longer than a day
-    tfs = ["T5", "H12", "D1"] if tier == "quick" else ["S5", "T1", "T5", "T45", "H1", "H4", "H12", "D1", "D2"]
+    tfs = ["S10", "T5", "H12", "D1"] if tier == "quick" else ["S5", "T1", "T5", "T45", "H1", "H4", "H12", "D1", "D2"]
     n = 3 if tier == "quick" else 4
     obs = []
     for tf in tfs:
